@@ -133,12 +133,12 @@ class PoolRun:
                 f.fill = fl
 
     def evaluate(self, mode, P=2, faults=(), sched_seed=0, script=None, switch_prob=0.05, funcs=None, real_pool=False,
-                 hard=False):
+                 hard=False, force_at=None):
         """returns (trace dict, outputs or None, funcs)"""
         faults = set(faults)
         cube = self.cube
         funcs = funcs if funcs is not None else self.funcs()
-        sched = sc.Scheduler(seed=sched_seed, switch_prob=switch_prob, script=script)
+        sched = sc.Scheduler(seed=sched_seed, switch_prob=switch_prob, script=script, force_at=force_at)
         if mode == "pool" and not real_pool and script is None:
             import catii.ccubes, catii.xcubes, catii.ffuncs, catii.xfuncs, catii.iindexes
             sched.install([catii.ccubes, catii.xcubes, catii.ffuncs, catii.xfuncs, catii.iindexes])
